@@ -29,3 +29,6 @@ RULE = ("harness/src/bin/wrappers.rs: the REAL build_public_batch_constraints (c
 def nontrivial(case, model_out):
     segs = case.segs.split(";")
     return int(segs[0].split()[0], 16) >= 2 or case.fid == "1202"
+
+# fids whose cases apply hint overrides addressed by (generator kind, occurrence) - see runner.default_judge
+OVERRIDE_FIDS = {"1202"}
